@@ -26,12 +26,14 @@ a public entry point of the property's list (with its guard: `if compute:` in `s
 `isinstance(dim_sel, CoreArray)` in `index`), the plan's own execute path, or the storage layer. -/
 theorem C16_sites_allowed : ∀ s ∈ sites, siteAllowed s = true := by decide
 
-/-- The functions that contain an execution-starting call are exactly these (table order). -/
+/-- The functions that contain an execution-starting call are exactly these (sorted): the conversion
+dunders, `CoreArray.compute`, `compute` (→ `FinalizedPlan.execute` → executor), `index`, `measure_reserved_mem`,
+`store`, `store_icechunk`, `to_zarr`. -/
 theorem C16_exec_entry_points :
     execEnclosing sites =
       ["Array.__array__", "Array.__bool__", "Array.__complex__", "Array.__float__", "Array.__index__",
-       "Array.__int__", "CoreArray.compute", "compute", "measure_reserved_mem", "index", "store", "to_zarr",
-       "FinalizedPlan.execute", "store_icechunk"] := by decide
+       "Array.__int__", "CoreArray.compute", "FinalizedPlan.execute", "compute", "index", "measure_reserved_mem",
+       "store", "store_icechunk", "to_zarr"] := by decide
 
 /-- Storage is created (`.create`, `zarr.create_array`, `group.create_array`, a group opened with a
 writing mode) only inside the storage layer and the create-arrays task function. -/
@@ -185,6 +187,10 @@ example : Valid (finalize id exOps) exSched := by
   · exact ⟨Node.op "op-002", by decide⟩
   · exact ⟨Node.op "op-002", by decide⟩
   · exact ⟨Node.op "op-003", by decide⟩
+
+example : Barrier (finalize id exOps) exSched := barrierOk_sound _ _ (by decide)
+/-- a schedule that writes a chunk before create-arrays ran violates the contract (so the hypothesis is not trivial). -/
+example : barrierOk (finalize id exOps) [.run "op-002" 0, .create "array-002", .create "array-003"] = false := by decide
 
 /-- accepted: build, plan, then a compute that creates before it writes. -/
 example : traceOk [.enter false, .exit, .enter false, .exit, .enter true, .mkmeta "a", .chunk "a", .exit] = true := by
